@@ -62,6 +62,7 @@ func genC15(t *rapid.T) C15Case {
 	fixEmptyLists(tree)
 	normSymbolic(tree)
 	u := UniverseFor(t, tree, false)
+	u.Stateless = drawStateless(t)
 	operatorLikeNames(t, tree, u)
 	c := C15Case{U: *u, Tree: tree}
 	redundant := rapid.Bool().Draw(t, "redundant")
@@ -144,6 +145,27 @@ func checkC15(c C15Case, r *Rec) *Violation {
 		tI, _ := SafeStr(func() string { return eval.DumpTable(eI, false) })
 		if tP != tI {
 			return Violf("C15: infix and prefix compile to different program tables\n%s\n%s\n%s", where(), tP, tI)
+		}
+		// (2b) the same tree goes through the optimizer the same way: under an optimization subset the two
+		// notations still give one program (all on, folding only, and one subset rotating with the case)
+		for _, mask := range []int{15, MaskFold, int(hash64(c.Infix) % 16)} {
+			ccPo, _ := NewConfig(u, &Log{}, Build{Mask: mask, Pure: true})
+			ccIo, _ := NewConfig(u, &Log{}, Build{Mask: mask, Infix: true, Pure: true})
+			ePo, c1 := SafeCompile(ccPo, psrc)
+			eIo, c2 := SafeCompile(ccIo, c.Infix)
+			if c1.Panic != nil || c2.Panic != nil || (c1.Err == nil) != (c2.Err == nil) {
+				return Violf("C15: under %s the two notations do not compile alike: prefix %v, infix %v\n%s", maskName(mask), c1, c2, where())
+			}
+			if c1.Err != nil {
+				continue
+			}
+			dPo, _ := SafeStr(func() string { return eval.Dump(ePo) })
+			dIo, _ := SafeStr(func() string { return eval.Dump(eIo) })
+			tPo, _ := SafeStr(func() string { return eval.DumpTable(ePo, false) })
+			tIo, _ := SafeStr(func() string { return eval.DumpTable(eIo, false) })
+			if dPo != dIo || tPo != tIo {
+				return Violf("C15: under %s (stateless=%v) infix and prefix compile to different programs\n%s\nprefix dump=\n%s\ninfix dump=\n%s\n%s\n%s", maskName(mask), u.Stateless, where(), dPo, dIo, tPo, tIo)
+			}
 		}
 		// (3) same outcomes
 		if !c.NoEval {
@@ -278,7 +300,7 @@ func sweepC15(tier string, shard, shards int, emit func(C15Case)) {
 
 var propC15 = Prop[C15Case]{
 	ID:    "C15",
-	Rule:  "typed random trees over the 16 symbolic binary operators, unary !, named calls with 0..5 arguments (built-in and custom), if(c,a,b), bracket lists, negative literals, rendered to infix with minimal parentheses by the stated precedence table, optionally with redundant parentheses, tight !x and extra white space; oracle: the tree read back from the infix program's Dump equals the rendered tree, Dump and DumpTable equal those of the prefix compilation (optimizations off), equal outcomes, and the optimized infix program agrees with R. Sweep: all 16x16 ordered operator pairs in both association shapes of 'a o1 b o2 c', as call arguments and as if operands; ! against every binary operator; 8^3 operator triples. Non-trivial = two infix-form operators are adjacent (precedence/associativity decides the shape) or an operator expression is a call argument; distinct by infix text",
+	Rule:  "typed random trees over the 16 symbolic binary operators, unary !, named calls with 0..5 arguments (built-in and custom), if(c,a,b), bracket lists, negative literals, rendered to infix with minimal parentheses by the stated precedence table, optionally with redundant parentheses, tight !x and extra white space; oracle: the tree read back from the infix program's Dump equals the rendered tree, Dump and DumpTable equal those of the prefix compilation (optimizations off, all on, folding only and one rotating subset; a drawn subset of the custom operators declared stateless), equal outcomes, and the optimized infix program agrees with R. Sweep: all 16x16 ordered operator pairs in both association shapes of 'a o1 b o2 c', as call arguments and as if operands; ! against every binary operator; 8^3 operator triples. Non-trivial = two infix-form operators are adjacent (precedence/associativity decides the shape) or an operator expression is a call argument; distinct by infix text",
 	Gen:   genC15,
 	Check: checkC15,
 	Sweep: sweepC15,
